@@ -60,3 +60,72 @@ package boltz
 //@   ensures[pending-error-does-nothing] old(holderFailed[ctx.ErrHolder]) ==> bktHas == old(bktHas) && bktVal == old(bktVal)
 //@   ensures[entry-removed] !old(holderFailed[ctx.ErrHolder]) && !holderFailed[ctx.ErrHolder] && str_len(old(uxNew(index, ctx))) > 0 && old(sel(bktSub[uxB2(index, ctx)], uxNew(index, ctx))) == 0 ==> !sel(bktHas[old(uxB2(index, ctx))], old(uxNew(index, ctx)))
 //@   ensures[other-entries-kept] forallStr(k, k != old(uxNew(index, ctx)) ==> sel(bktHas[old(uxB2(index, ctx))], k) == sel(old(bktHas[uxB2(index, ctx)]), k))
+
+// ---- set index ----
+// GetOrCreateBucket: the nested bucket under name - the existing one, or a fresh empty one; nothing else changes
+//@ func (*TypedBucket).GetOrCreateBucket
+//@   props C03
+//@   assume bucket.ErrorHolderImpl != nil && bucket.Bucket != nil
+//@   modifies bktHas[bucket.Bucket], bktSub[bucket.Bucket]
+//@   ensures[pending-error] bucket.Err != nil ==> result == bucket && bktHas[bucket.Bucket] == old(bktHas[bucket.Bucket]) && bktSub[bucket.Bucket] == old(bktSub[bucket.Bucket])
+//@   ensures[existing] bucket.Err == nil && old(bktHas[bucket.Bucket][name]) && old(bktSub[bucket.Bucket][name]) != 0 ==> result != nil && result.ErrorHolderImpl != nil && result.Err == nil && result.Bucket == old(bktSub[bucket.Bucket][name]) && bktHas[bucket.Bucket] == old(bktHas[bucket.Bucket]) && bktSub[bucket.Bucket] == old(bktSub[bucket.Bucket])
+//@   ensures[created-empty] bucket.Err == nil && !old(bktHas[bucket.Bucket][name]) && result.Err == nil ==> result != nil && result.Bucket != nil && fresh(result.Bucket) && bktHas[bucket.Bucket] == sto(old(bktHas[bucket.Bucket]), name, true) && bktSub[bucket.Bucket] == sto(old(bktSub[bucket.Bucket]), name, result.Bucket) && forallStr(s, !sel(bktHas[result.Bucket], s))
+//@   ensures[a-bucket-or-an-error] result != nil && result.ErrorHolderImpl != nil && (result.Err == nil ==> result.Bucket != nil)
+//@   ensures[the-nested-bucket] bucket.Err == nil && result.Err == nil ==> result.Bucket == bktSub[bucket.Bucket][name] && bktHas[bucket.Bucket][name]
+//@   ensures[other-keys-kept] forallStr(k, k != name ==> sel(bktHas[bucket.Bucket], k) == sel(old(bktHas[bucket.Bucket]), k) && sel(bktSub[bucket.Bucket], k) == sel(old(bktSub[bucket.Bucket]), k))
+//@   ensures[failed-atomically] bucket.Err == nil && result.Err != nil ==> bktHas[bucket.Bucket] == old(bktHas[bucket.Bucket]) && bktSub[bucket.Bucket] == old(bktSub[bucket.Bucket])
+// sxBase: the set index's base bucket; sxMember(base, v, row): row is listed under value v
+//@ define sxBase(index, ctx) = pathB(ctxTx[ctx.Ctx], arr(index.indexPath), len(index.indexPath))
+//@ define sxMember(base, v, row) = sel(bktHas[base], v) && sel(bktSub[base], v) != 0 && sel(bktHas[sel(bktSub[base], v)], prepend(TypeString, row))
+//@ func (*setIndex).getIndexBucket
+//@   props C03
+//@   nosafety
+//@   modifies bktHas[pathB(tx, arr(index.indexPath), len(index.indexPath))], bktSub[pathB(tx, arr(index.indexPath), len(index.indexPath))]
+//@   ensures[the-value's-bucket] pathB(tx, arr(index.indexPath), len(index.indexPath)) != 0 && result.Err == nil ==> result.Bucket != nil && result.Bucket == sel(bktSub[pathB(tx, arr(index.indexPath), len(index.indexPath))], str(key)) && sel(bktHas[pathB(tx, arr(index.indexPath), len(index.indexPath))], str(key))
+//@   ensures[a-bucket-or-an-error] result != nil && result.ErrorHolderImpl != nil
+//@   ensures[other-values-kept] forallStr(k, k != str(key) ==> sel(bktHas[pathB(tx, arr(index.indexPath), len(index.indexPath))], k) == sel(old(bktHas[pathB(tx, arr(index.indexPath), len(index.indexPath))]), k) && sel(bktSub[pathB(tx, arr(index.indexPath), len(index.indexPath))], k) == sel(old(bktSub[pathB(tx, arr(index.indexPath), len(index.indexPath))]), k))
+//@   ensures[existing-bucket-kept] old(sel(bktHas[pathB(tx, arr(index.indexPath), len(index.indexPath))], str(key))) && old(sel(bktSub[pathB(tx, arr(index.indexPath), len(index.indexPath))], str(key))) != 0 ==> sel(bktSub[pathB(tx, arr(index.indexPath), len(index.indexPath))], str(key)) == old(sel(bktSub[pathB(tx, arr(index.indexPath), len(index.indexPath))], str(key)))
+//@ func (*setIndex).deleteIndexKey
+//@   props C03 C07
+//@   errflow
+//@   nosafety
+//@   modifies bktHas[pathB(tx, arr(index.indexPath), len(index.indexPath))], bktSub[pathB(tx, arr(index.indexPath), len(index.indexPath))]
+//@   ensures[key-deleted] result == nil && pathB(tx, arr(index.indexPath), len(index.indexPath)) != 0 ==> !sel(bktHas[pathB(tx, arr(index.indexPath), len(index.indexPath))], str(key))
+//@   ensures[other-values-kept] forallStr(k, k != str(key) ==> sel(bktHas[pathB(tx, arr(index.indexPath), len(index.indexPath))], k) == sel(old(bktHas[pathB(tx, arr(index.indexPath), len(index.indexPath))]), k) && sel(bktSub[pathB(tx, arr(index.indexPath), len(index.indexPath))], k) == sel(old(bktSub[pathB(tx, arr(index.indexPath), len(index.indexPath))]), k))
+//@ func (*TypedBucket).DeleteListEntry
+//@   props C03
+//@   assume bucket.ErrorHolderImpl != nil && bucket.Bucket != nil
+//@   modifies bucket.Err, bktHas[bucket.Bucket]
+//@   ensures result == bucket
+//@   ensures[skipped] old(bucket.Err) != nil ==> bucket.Err == old(bucket.Err) && bktHas[bucket.Bucket] == old(bktHas[bucket.Bucket])
+//@   ensures[removed] old(bucket.Err) == nil && bucket.Err == nil ==> bktHas[bucket.Bucket] == sto(old(bktHas[bucket.Bucket]), prepend(fieldType, str(value)), old(bktHas[bucket.Bucket][prepend(fieldType, str(value))]) && old(bktSub[bucket.Bucket][prepend(fieldType, str(value))]) != 0)
+//@   ensures[failed-atomically] old(bucket.Err) == nil && bucket.Err != nil ==> bktHas[bucket.Bucket] == old(bktHas[bucket.Bucket])
+// assumed: reading a row's current set values changes nothing that existed before
+//@ func (*setIndex).getCurrentValues
+//@   pure
+// before the delete: under every current value of the row, the row's entry is gone (and a value left without entries
+// loses its key)
+//@ func (*setIndex).ProcessBeforeDelete
+//@   props C03
+//@   nosafety
+//@   assume[index-bucket-initialised] sxBase(index, ctx) != 0
+//@   modifies *
+//@   ensures[pending-error-does-nothing] old(holderFailed[ctx.ErrHolder]) ==> bktHas == old(bktHas) && bktSub == old(bktSub)
+//@   lensures[row-removed-under-every-current-value] !old(holderFailed[ctx.ErrHolder]) && !holderFailed[ctx.ErrHolder] ==> forall(j, 0 <= j && j < len(values) ==> !sxMember(sxBase(index, ctx), str(values[j].Value), str(ctx.RowId)))
+//@   invariant 1: !holderFailed[ctx.ErrHolder] ==> forall(j, 0 <= j && j <= rangeindex ==> !sxMember(sxBase(index, ctx), str(values[j].Value), str(ctx.RowId)))
+// after the write: an unchanged value list does nothing; otherwise every new value lists the row
+//@ func (*setIndex).ProcessAfterUpdate
+//@   props C03
+//@   nosafety
+//@   assume[index-bucket-initialised] sxBase(index, ctx) != 0
+//@   modifies *
+//@   ensures[pending-error-does-nothing] old(holderFailed[ctx.ErrHolder]) ==> bktHas == old(bktHas) && bktSub == old(bktSub)
+//@   lensures[unchanged-values-do-nothing] !changed ==> bktHas == old(bktHas) && bktSub == old(bktSub) && bktVal == old(bktVal)
+//@   lensures[every-new-value-lists-the-row] changed && !holderFailed[ctx.ErrHolder] ==> forall(j, 0 <= j && j < len(newValues) ==> sxMember(sxBase(index, ctx), str(newValues[j].Value), str(ctx.RowId)))
+//@   invariant 1: bktHas == old(bktHas) && bktSub == old(bktSub) && bktVal == old(bktVal) && !holderFailed[ctx.ErrHolder]
+//@   invariant 2: true
+//@   invariant 3: !holderFailed[ctx.ErrHolder] ==> forall(j, 0 <= j && j <= rangeindex ==> sxMember(sxBase(index, ctx), str(newValues[j].Value), str(ctx.RowId)))
+//@   invariant 4: !holderFailed[ctx.ErrHolder] ==> forall(j, 0 <= j && j < len(newValues) ==> sxMember(sxBase(index, ctx), str(newValues[j].Value), str(ctx.RowId)))
+//@ functype SetChangeListener(ctx, rowId, old, new, holder)
+//@   modifies holderFailed[holder]
+//@   ensures old(holderFailed[holder]) ==> holderFailed[holder]
